@@ -49,13 +49,13 @@ func runC07(s *Svc, m *spec.Method, tier string) *MethodResult {
 	}
 	if s.Service == s.Spec.Services[0] && m == s.Service.Methods[0] {
 		// design-level work is done once, while the first method of the first service is processed
-		fs := c07Design(s, r, true)
+		fs := c07Design(s, r, true, true)
 		for _, f := range fs {
 			f := f
 			r.violation(f.sig, f.what, f.cs, func() []string {
 				oaCache.Delete(designDir(s.Design)) // re-read the documents, re-mount the servers
 				var sigs []string
-				for _, g := range c07Design(s, r, false) {
+				for _, g := range c07Design(s, r, false, true) {
 					sigs = append(sigs, g.sig)
 				}
 				return sigs
@@ -83,7 +83,7 @@ func runC07(s *Svc, m *spec.Method, tier string) *MethodResult {
 // ---------------------------------------------------------------------------------------------
 // (1) validity, JSON = YAML, (2) mount-set equality
 
-func c07Design(s *Svc, r *MethodResult, count bool) []c07Finding {
+func c07Design(s *Svc, r *MethodResult, count, mount bool) []c07Finding {
 	var out []c07Finding
 	d := loadDocs(s.Design)
 	base := func() map[string]any {
@@ -186,7 +186,10 @@ func c07Design(s *Svc, r *MethodResult, count bool) []c07Finding {
 	// mount set
 	mounted := map[string]int{}
 	var mountList []string
-	mountOK := true
+	mountOK := mount
+	if !mount {
+		return out
+	}
 	for _, svc := range s.Spec.Services {
 		recs, err := mountedRoutes(s.Design, s.Spec, svc)
 		if count {
@@ -222,6 +225,13 @@ func c07Design(s *Svc, r *MethodResult, count bool) []c07Finding {
 			}
 			equal := true
 			for _, k := range sortedKeys(mounted) {
+				if verb, _, _ := strings.Cut(k, " "); verb == "CONNECT" || (dv.v2 && verb == "TRACE") {
+					// the document format has no field for this verb: nothing can be demanded
+					if count {
+						r.note("mounted_routes_with_verb_the_document_format_cannot_express_doc="+dv.name, int64(mounted[k]))
+					}
+					continue
+				}
 				if mounted[k] > documented[k] {
 					equal = false
 					verb, pat, _ := strings.Cut(k, " ")
@@ -658,4 +668,46 @@ func featOr(m *spec.Method, k, def string) string {
 		return v
 	}
 	return def
+}
+
+// C07Static runs the parts of C07 that need no linked server (document validity, JSON = YAML,
+// per-operation comparison with the designed layout) on one generated design of a compile-only
+// family. The mount-set comparison needs the generated code and is not done here.
+func C07Static(corpusDir, design string, sp *spec.Spec) []*MethodResult {
+	staticCorpusDir = corpusDir
+	var out []*MethodResult
+	first := true
+	for _, svc := range sp.Services {
+		for _, m := range svc.Methods {
+			s := &Svc{Design: design, Spec: sp, Service: svc, V: V{sp}}
+			r := &MethodResult{Design: design, Service: svc.Name, Method: m.Name, Feat: m.Feat}
+			out = append(out, r)
+			if m.HTTP == nil {
+				r.Skipped = "no HTTP mapping"
+				continue
+			}
+			if first {
+				first = false
+				for _, f := range c07Design(s, r, true, false) {
+					r.violation(f.sig, f.what, f.cs, nil)
+				}
+				r.note("designs_checked_without_mount-set_(compile-only_family)", 1)
+			}
+			if m.StreamPayload != nil || m.StreamResult != nil || m.HTTP.Multipart || m.HTTP.MapParams != "" || m.HTTP.SkipReq || m.HTTP.SkipResp {
+				r.note("methods_with_streaming_multipart_mapparams_not_compared_per_operation", 1)
+				continue
+			}
+			func() {
+				defer func() {
+					if p := recover(); p != nil {
+						r.HarnessErr = append(r.HarnessErr, fmt.Sprintf("c07 static: %v", p))
+					}
+				}()
+				for _, f := range c07Method(s, m, r, true) {
+					r.violation(f.sig, f.what, f.cs, nil)
+				}
+			}()
+		}
+	}
+	return out
 }
